@@ -56,20 +56,23 @@ Catalogue(sp) ==
          Leaf("IndBall2"), Leaf("IndBallInf"),
          LeafSC("Const", QZero, QI(3)),
          Mk("Quad", QZero, QOne, RConst(n, QI(2)), PVecT(n), <<>>),      \* 2|x|^2 + <b,x> + 1 (ScalingOperator)
-         Mk("Quad", QZero, QZero, PVecD(n), <<>>, <<>>),                 \* <x, diag x>     (MultiplyOperator)
          Mk("Quad", QZero, QOne, <<>>, PVecT(n), <<>>),                  \* linear <b,x> + 1
          Mk("KL", QZero, QZero, PVecG(n), <<>>, <<>>),
          Mk("KLcc", QZero, QZero, PVecG(n), <<>>, <<>>)}
-      scal == {Leaf("Linf"), Leaf("IndBall1"), LeafS("IndSum", QOne), LeafS("IndSimplex", QI(2))}
+      scal == {Leaf("Linf"), Leaf("IndBall1"), LeafS("IndSum", QOne), LeafS("IndSimplex", QI(2)),
+               Mk("Quad", QZero, QZero, PVecD(n), <<>>, <<>>)}                 \* <x, diag x>  (MatrixOperator)
       vf   == {Leaf("GroupL1"), Leaf("IndGroupBall")}
-      cat  == all \cup (IF scalarSpace THEN scal ELSE {}) \cup (IF IsVF(sp) THEN vf ELSE {})
+      \* documented domains: Huber needs a tensor or POWER space, the KL functionals a tensor space
+      het  == {l \in all : l.op \notin {"Huber", "KL", "KLcc"}}
+      cat  == (IF sp.kind = "pspace" THEN het ELSE all) \cup
+              (IF scalarSpace THEN scal ELSE {}) \cup (IF IsVF(sp) THEN vf ELSE {})
   IN IF LeafFilter = {} THEN cat ELSE {l \in cat : l.op \in LeafFilter}
 
 \* smooth finite operands for the binary rules
 SecondOperands(sp) ==
   LET n == Dim(sp) IN
-  {Leaf("L2sq"), Leaf("L1"), LeafS("Huber", Q(1, 2)),
-   Mk("Quad", QZero, QOne, RConst(n, QI(2)), PVecT(n), <<>>)}
+  {Leaf("L2sq"), Leaf("L1"), Mk("Quad", QZero, QOne, RConst(n, QI(2)), PVecT(n), <<>>)} \cup
+  (IF sp.kind = "pspace" THEN {} ELSE {LeafS("Huber", Q(1, 2))})
 
 UnaryRulesAll(sp) ==
   LET n == Dim(sp) IN
@@ -95,6 +98,7 @@ Applicable(r, e) ==
   ELSE IF r.op = "LScale" /\ r.s[1] < 0 THEN FiniteValued(e.f)
   ELSE IF r.op = "Conj" THEN Convex(e.f) /\ HasSubdiff(e.f)
   ELSE IF r.op = "Comp" THEN e.sp.kind # "part"
+  ELSE IF r.op = "Bregman" THEN XKnown(Val(e.sp, e.f, r.v))      \* the reference point lies in dom f
   ELSE TRUE
 
 (* ------------------------------ actions --------------------------------- *)
@@ -108,7 +112,7 @@ PushLeaf   == /\ stack = <<>>
 PushSecond == /\ Len(stack) = 1 /\ stack[1].sp = Sp /\ stack[1].k + 1 <= Depth
               /\ FiniteValued(stack[1].f)
               /\ \E l \in SecondOperands(Sp) : stack' = Append(stack, Entry(Sp, l, 0))
-PushPart   == /\ Sp.kind = "pspace" /\ Len(stack) < 2 /\ Depth >= 1
+PushPart   == /\ Sp.kind = "pspace" /\ Len(stack) < 2 /\ Budget + 1 <= Depth
               /\ \A j \in 1..Len(stack) : stack[j].sp.kind = "part"
               /\ \E l \in Catalogue(Part(Sp, Len(stack) + 1)) :
                     stack' = Append(stack, Entry(Part(Sp, Len(stack) + 1), l, 0))
@@ -118,7 +122,7 @@ Unary      == /\ Len(stack) >= 1 /\ Budget + 1 <= Depth
                  /\ \E r \in UnaryRules(e.sp) :
                       /\ Applicable(r, e)
                       /\ stack' = [stack EXCEPT ![Len(stack)] = Entry(e.sp, Apply(r, e.f), e.k + 1)]
-Binary     == /\ Len(stack) = 2
+Binary     == /\ Len(stack) = 2 /\ Budget <= Depth
               /\ IF stack[1].sp.kind = "part"
                    THEN stack' = <<Entry(Sp, Apply2("SepSum", stack[1].f, stack[2].f), Budget)>>
                    ELSE \E op \in BinOps :
